@@ -117,6 +117,10 @@ type TunPlan struct {
 	// it sends a handshake with version 7.7, which no other client of a run uses.
 	DupIn    int
 	DupAfter int
+	// EndBody (legacy): the client ends the request body of the IN channel properly after
+	// its last packet: 1 = the terminating chunk travels in the same write as the last piece
+	// of the packet stream, 2 = in a write of its own
+	EndBody int
 }
 
 type Tun struct {
@@ -174,7 +178,17 @@ func (t *Tun) sendSeg(c *Ctx) {
 	sg := p.Segs[t.seg]
 	t.seg++
 	piece := t.stream[sg[0]:sg[1]]
-	if p.Transport == "ws" && p.WSFrames > 1 && len(piece) >= p.WSFrames {
+	last := t.seg == len(p.Segs)
+	if last && p.Transport == "legacy" && p.EndBody > 0 {
+		w := codec.Chunk(piece)
+		if p.EndBody == 1 {
+			cl.SendWire(append(w, []byte("0\r\n\r\n")...))
+		} else {
+			cl.SendWire(w)
+			cl.SendWire([]byte("0\r\n\r\n"))
+		}
+		c.S.Count("probe.body_ended_properly")
+	} else if p.Transport == "ws" && p.WSFrames > 1 && len(piece) >= p.WSFrames {
 		var fr []int
 		for i := 0; i < p.WSFrames; i++ {
 			fr = append(fr, len(piece)/p.WSFrames)
